@@ -116,11 +116,15 @@ def location(project, source, position, filename=None, debug=False):
             loc = loc[0], loc[1] - len(SOURCE_MARK)
         return _loc(loc, name.filename)
 
+    def has_loc(name):
+        # builtins, literals and compiled modules have no place in a source
+        return hasattr(name, 'declared_at') and hasattr(name, 'filename')
+
     locs = []
     for r in result:
         if isinstance(r, list):
-            locs.append([name_loc(n) for n in r])
-        else:
+            locs.append([name_loc(n) for n in r if has_loc(n)])
+        elif has_loc(r):
             locs.append(name_loc(r))
 
     return locs
